@@ -20,6 +20,9 @@ def oracle(line: str, obs: Obs):
     ever_connected = set()
     orphan_by_cer, orphaned_seen = set(), set()
     had_two = set()          # peers that have had two live connections at once (a dialled one and one they opened themselves)
+    # what the recorded defect (K6) predicts for Peer.connection: a connection of the peer becomes its current one only when it
+    # appears while the peer has none; when the current one ends the record is emptied, whatever else lives on
+    k6_current, k6_prev_mine = {}, {}
     ce_count = {}
     dialled_name = {}
     for ev, lines in obs.blocks:
@@ -58,6 +61,13 @@ def oracle(line: str, obs: Obs):
             mine = [k for k, c in live.items() if of_peer(c, p)]
             if len(mine) >= 2:
                 had_two.add(p)
+            if k6_current.get(p) is not None and k6_current[p] not in mine:
+                k6_current[p] = None
+            if k6_current.get(p) is None:
+                fresh = [k for k in mine if k not in k6_prev_mine.get(p, ())]
+                if fresh:
+                    k6_current[p] = fresh[0]
+            k6_prev_mine[p] = list(mine)
             if pd["conn"] == "-" and mine and t[0] == "rx" and len(t) == 3 and ":".join(t[2].split(":")[:2]) in ("CE:128", "257:128") \
                     and p not in orphaned_seen:
                 orphan_by_cer.add(p)
@@ -77,7 +87,8 @@ def oracle(line: str, obs: Obs):
                               "event": ev[:200], "real": f"PEER {p} {pd} / live {mine}",
                               # the recorded finding: the peer's *current* connection ended (loss, timeout, DPR/DPA) while its
                               # second one lives on -- not: the node itself gave the first one up when the second one's CER came
-                              "sig": "second_connection_orphaned" if (p in had_two and p not in orphan_by_cer) else None})
+                              "sig": "second_connection_orphaned" if (p in had_two and p not in orphan_by_cer and
+                                                                      k6_current.get(p) is None) else None})
             if pd["conn"] == "-" and p in ever_connected and (pd["reason"] == "-" or pd["disc"] != "1"):
                 fails.append({"what": "peer connection removed but disconnect reason / time not set", "event": ev[:200],
                               "real": f"PEER {p} {pd}"})
